@@ -999,15 +999,20 @@ pub fn search(start: &str, depth: usize) -> Result<Res, String> {
     let model = from_model(&tree, &mut vec![], &marks);
     let doc: DocumentMut = start.parse().map_err(|e: toml_edit::TomlError| e.to_string())?;
     let text0 = doc.to_string();
-    let mut seen: HashSet<u64> = HashSet::new();
-    seen.insert(hash64(format!("{}|{:?}", text0, doc).as_bytes()));
+    // visited set: sharded, filled concurrently, so that duplicate successors are dropped where they are produced and
+    // the states of the last level (never expanded) are not kept at all - memory stays proportional to one frontier
+    let shards: Vec<std::sync::Mutex<HashSet<u64>>> = (0..256).map(|_| std::sync::Mutex::new(HashSet::new())).collect();
+    let insert = |h: u64| shards[(h % 256) as usize].lock().unwrap().insert(h);
+    insert(hash64(format!("{}|{:?}", text0, doc).as_bytes()));
     let mut frontier = vec![St { doc, model, text: text0, path: vec![] }];
     let mut res = Res { states: 1, transitions: 0, depth: 0, viols: vec![], samples: vec![] };
     for d in 0..depth {
-        let expanded: Vec<Vec<(Option<St>, u64, Option<(String, Option<&'static str>, String)>)>> = frontier
+        let last_level = d + 1 == depth;
+        type Out = (Vec<St>, u64, Vec<(String, Option<&'static str>, String)>, Option<String>);
+        let expanded: Vec<Out> = frontier
             .par_iter()
             .map(|st| {
-                let mut out = Vec::new();
+                let mut out: Out = (Vec::new(), 0, Vec::new(), None);
                 for op in enumerate_ops(&st.model) {
                     let mut path = st.path.clone();
                     path.push(format!("{:?}", op));
@@ -1019,13 +1024,21 @@ pub fn search(start: &str, depth: usize) -> Result<Res, String> {
                         let r = check_step(&st.text, &doc, &model, &touched);
                         (doc, model, r)
                     });
-                    let label = format!("start {:?} ; {}", start, path.join(" ; "));
+                    out.1 += 1;
                     match r {
-                        Err(p) => out.push((None, 0, Some((label, None, format!("panic: {}", p))))),
-                        Ok((_, _, Err((c, e)))) => out.push((None, 0, Some((label, c, e)))),
+                        Err(p) => out.2.push((format!("start {:?} ; {}", start, path.join(" ; ")), None, format!("panic: {}", p))),
+                        Ok((_, _, Err((c, e)))) => out.2.push((format!("start {:?} ; {}", start, path.join(" ; ")), c, e)),
                         Ok((doc, model, Ok(text))) => {
                             let h = hash64(format!("{}|{:?}", text, doc).as_bytes());
-                            out.push((Some(St { doc, model, text, path }), h, None));
+                            if insert(h) {
+                                if last_level {
+                                    if out.3.is_none() {
+                                        out.3 = Some(format!("{:?} ; {} => {:?}", start, path.join(" ; "), text));
+                                    }
+                                } else {
+                                    out.0.push(St { doc, model, text, path });
+                                }
+                            }
                         }
                     }
                 }
@@ -1033,21 +1046,18 @@ pub fn search(start: &str, depth: usize) -> Result<Res, String> {
             })
             .collect();
         let mut next = Vec::new();
-        for g in expanded {
-            for (st, h, v) in g {
-                res.transitions += 1;
-                if let Some(v) = v {
-                    res.viols.push(v);
-                    continue;
-                }
-                let st = st.unwrap();
-                if seen.insert(h) {
-                    if res.samples.len() < 2 && st.path.len() == depth {
-                        res.samples.push(format!("{:?} ; {} => {:?}", start, st.path.join(" ; "), st.text));
-                    }
-                    next.push(st);
+        for (sts, n, viols, sample) in expanded {
+            res.transitions += n;
+            // (bounded: the report keeps the first few hundred, unclassified first)
+            if res.viols.len() < 5000 {
+                res.viols.extend(viols);
+            }
+            if let Some(sm) = sample {
+                if res.samples.len() < 2 {
+                    res.samples.push(sm);
                 }
             }
+            next.extend(sts);
         }
         res.depth = d + 1;
         frontier = next;
@@ -1055,7 +1065,7 @@ pub fn search(start: &str, depth: usize) -> Result<Res, String> {
             break;
         }
     }
-    res.states = seen.len() as u64;
+    res.states = shards.iter().map(|s| s.lock().unwrap().len() as u64).sum();
     Ok(res)
 }
 
